@@ -207,6 +207,10 @@ def classify(r):
     wf = r["wf"]
     if wf == "2":
         return None if r["impl"] == r["model"] else "note"
+    if r["spec"] == "safe":
+        # unmodelled exploration op (C05): the property only demands that every call completes
+        bad = (not r["impl"].startswith("ok")) or "MISMATCH" in r["impl"] or "FAILED" in r["impl"]
+        return "spec" if bad else None
     if wf == "1" and r["spec"] == "err":
         # the property only demands *an* error here
         if not r["impl"].startswith("err ") or r["impl"] == "err panic":
